@@ -71,6 +71,38 @@ Json gen(sim::Rng& rng, int tier)
         for (size_t i = 0; i + 2 < conns.size() && i < 2; ++i) c2.push(conns.at(i));
         conns = c2;
     }
+    // a crowd, now and then: 70..140 connections of one worker get their replies (or their time-outs armed) by the
+    // application thread back to back while the worker sits in a slow handler - the loop thread comes back to a queue that
+    // holds far more items than any batch size somebody might have picked, and nothing else wakes it afterwards
+    if (rng.chance(0.06)) {
+        p["workers"] = 1;
+        int G = static_cast<int>(4000 + rng.below(8000));
+        p["app_gather_us"] = G;
+        p["app_delay_us"] = 0;
+        p["crowd"] = true;
+        Json c3 = Json::array();
+        int N = static_cast<int>(70 + rng.below(51)); // (below the listen backlog of 128: the simulated kernel gives a dropped SYN up)
+        for (int i = 0; i < N; ++i) {
+            Json c = Json::object();
+            c["kind"] = "async"; // (nothing that would queue a write later on and wake the loop for the ones left behind)
+            c["ms"] = static_cast<int>(20 + rng.below(80));
+            c["size"] = static_cast<int>(rng.below(200));
+            c["tag"] = static_cast<long long>(tag += 10);
+            c["start_us"] = static_cast<int>(rng.below(2000));
+            c["latency_us"] = static_cast<int>(10 + rng.below(30));
+            c["leave_us"] = 0;
+            c3.push(c);
+        }
+        Json b = Json::object();
+        b["kind"] = "busy";
+        b["ms"] = 0;
+        b["size"] = static_cast<int>(3000 + rng.below(6000));
+        b["tag"] = static_cast<long long>(tag += 10);
+        b["start_us"] = G - static_cast<int>(300 + rng.below(1200));
+        b["latency_us"] = 20;
+        c3.push(b);
+        conns = c3;
+    }
     p["conns"] = conns;
     gen_sched(rng, p, 3000, false);
     return p;
@@ -87,6 +119,7 @@ void run(const Json& plan)
     o.app_delay_ns = std::max<i64>(0, std::min<i64>(plan.num("app_delay_us", 0), 20000)) * 1000;
     o.app_gather_ns = std::max<i64>(0, std::min<i64>(plan.num("app_gather_us", 0), 20000)) * 1000;
     w.start(o);
+    if (plan.flag("crowd")) r.probe("crowd");
     using actors::Step;
     const Json& conns = plan.get("conns");
     struct Want { std::string kind, target, body; i64 ms = 0; };
